@@ -404,3 +404,319 @@ Section SplitIndex.
           unfold key_eqb; cbn [fst snd]. rewrite (N_eqb_neq s s0 (Ne s sp re Hin)). apply andb_false_r.
   Qed.
 End SplitIndex.
+
+(* ---------- the split map: ids, mapping after the split ---------- *)
+Definition ids (sm : list (N * (N * N))) : list N :=
+  flat_map (fun e => [fst e; fst (snd e); snd (snd e)]) sm.
+
+Lemma in_ids sm s sp re : In (s, (sp, re)) sm -> In s (ids sm) /\ In sp (ids sm) /\ In re (ids sm).
+Proof.
+  intro H. unfold ids. repeat split; apply in_flat_map; exists (s, (sp, re)); (split; [exact H|]); simpl; auto.
+Qed.
+
+Lemma ids_nodup_parts sm : NoDup (ids sm) ->
+  NoDup (map fst sm) /\ NoDup (map (fun e => fst (snd e)) sm) /\ NoDup (map (fun e => snd (snd e)) sm).
+Proof.
+  induction sm as [|[s [sp re]] r IH]; intro ND; simpl; [repeat split; constructor|].
+  change (ids ((s, (sp, re)) :: r)) with (s :: sp :: re :: ids r) in ND.
+  inversion ND as [|? ? N1 ND1]; subst. inversion ND1 as [|? ? N2 ND2]; subst. inversion ND2 as [|? ? N3 ND3]; subst.
+  destruct (IH ND3) as (I1 & I2 & I3).
+  repeat split; constructor; try assumption; intro Hin; apply in_map_iff in Hin as [[s' [sp' re']] [E Hin]];
+    simpl in E; subst; destruct (in_ids r _ _ _ Hin) as (J1 & J2 & J3).
+  - apply N1. now do 2 right.
+  - apply N2. now right.
+  - now apply N3.
+Qed.
+
+Definition split_map (body newl : N) (sm : list (N * (N * N))) (m : list (N * N)) : list (N * N) :=
+  fold_left (fun m e => aset N.eqb (fst e) 0 (aset N.eqb (snd (snd e)) body (aset N.eqb (fst (snd e)) newl m))) sm m.
+
+Lemma mapped_split_map body newl sm : forall m, NoDup (ids sm) ->
+  (forall s sp re, In (s, (sp, re)) sm ->
+     mapped (split_map body newl sm m) s = 0 /\ mapped (split_map body newl sm m) sp = newl /\
+     mapped (split_map body newl sm m) re = body) /\
+  (forall x, ~ In x (ids sm) -> mapped (split_map body newl sm m) x = mapped m x).
+Proof.
+  induction sm as [|[s [sp re]] r IH]; intros m ND; [split; [intros ? ? ? []|reflexivity]|].
+  change (ids ((s, (sp, re)) :: r)) with (s :: sp :: re :: ids r) in *.
+  inversion ND as [|? ? N1 ND1]; subst. inversion ND1 as [|? ? N2 ND2]; subst. inversion ND2 as [|? ? N3 ND3]; subst.
+  unfold split_map; cbn [fold_left fst snd].
+  set (m1 := aset N.eqb s 0 (aset N.eqb re body (aset N.eqb sp newl m))).
+  fold (split_map body newl r m1). destruct (IH m1 ND3) as [P1 P2].
+  assert (forall x, mapped m1 x = if x =? s then 0 else if x =? re then body else if x =? sp then newl else mapped m x) as M1
+      by (intro x; unfold m1; now rewrite !mapped_aset).
+  split.
+  - intros s' sp' re' [E|Hin].
+    + inversion E; subst s' sp' re'.
+      rewrite !P2, !M1 by (intro X; first [apply N1; now do 2 right | apply N2; now right | now apply N3]).
+      rewrite N.eqb_refl.
+      rewrite (N_eqb_neq sp s) by (intro; subst; apply N1; now left).
+      rewrite (N_eqb_neq sp re) by (intro; subst; apply N2; now left).
+      rewrite (N_eqb_neq re s) by (intro; subst; apply N1; right; now left).
+      rewrite !N.eqb_refl. auto.
+    + now apply P1.
+  - intros x Hx. rewrite P2 by (intro; apply Hx; now do 3 right). rewrite M1.
+    rewrite (N_eqb_neq x s) by (intro; subst; apply Hx; now left).
+    rewrite (N_eqb_neq x re) by (intro; subst; apply Hx; do 2 right; now left).
+    rewrite (N_eqb_neq x sp) by (intro; subst; apply Hx; right; now left). reflexivity.
+Qed.
+
+(* collapsing the sums *)
+Lemma smsum_spl sm x s re g : NoDup (map (fun e => fst (snd e)) sm) -> In (s, (x, re)) sm ->
+  smsum sm (fun s' sp' re' => if x =? sp' then g s' sp' re' else 0) = g s x re.
+Proof.
+  induction sm as [|[s0 [sp0 re0]] r IH]; intros ND Hin; [destruct Hin|]. simpl in ND. inversion ND as [|? ? Hn ND']; subst.
+  simpl. destruct Hin as [E|Hin].
+  - inversion E; subst. rewrite N.eqb_refl. rewrite smsum_zero; [lia|]. intros s' sp' re' Hin'.
+    destruct (x =? sp') eqn:E'; [|reflexivity]. apply N.eqb_eq in E'; subst. exfalso. apply Hn.
+    apply in_map_iff. now exists (s', (sp', re')).
+  - rewrite (IH ND' Hin). destruct (x =? sp0) eqn:E'; [|lia]. apply N.eqb_eq in E'; subst. exfalso. apply Hn.
+    apply in_map_iff. now exists (s, (sp0, re)).
+Qed.
+
+Lemma smsum_rem sm x s sp g : NoDup (map (fun e => snd (snd e)) sm) -> In (s, (sp, x)) sm ->
+  smsum sm (fun s' sp' re' => if x =? re' then g s' sp' re' else 0) = g s sp x.
+Proof.
+  induction sm as [|[s0 [sp0 re0]] r IH]; intros ND Hin; [destruct Hin|]. simpl in ND. inversion ND as [|? ? Hn ND']; subst.
+  simpl. destruct Hin as [E|Hin].
+  - inversion E; subst. rewrite N.eqb_refl. rewrite smsum_zero; [lia|]. intros s' sp' re' Hin'.
+    destruct (x =? re') eqn:E'; [|reflexivity]. apply N.eqb_eq in E'; subst. exfalso. apply Hn.
+    apply in_map_iff. now exists (s', (sp', re')).
+  - rewrite (IH ND' Hin). destruct (x =? re0) eqn:E'; [|lia]. apply N.eqb_eq in E'; subst. exfalso. apply Hn.
+    apply in_map_iff. now exists (s, (sp, re0)).
+Qed.
+
+Lemma smsum_no_spl sm x g : (forall s sp re, In (s, (sp, re)) sm -> x <> sp) ->
+  smsum sm (fun s' sp' re' => if x =? sp' then g s' sp' re' else 0) = 0.
+Proof. intro H. apply smsum_zero. intros s sp re Hin. now rewrite (N_eqb_neq x sp (H s sp re Hin)). Qed.
+Lemma smsum_no_rem sm x g : (forall s sp re, In (s, (sp, re)) sm -> x <> re) ->
+  smsum sm (fun s' sp' re' => if x =? re' then g s' sp' re' else 0) = 0.
+Proof. intro H. apply smsum_zero. intros s sp re Hin. now rewrite (N_eqb_neq x re (H s sp re Hin)). Qed.
+Lemma smsum_no_both sm x g g' :
+  (forall s sp re, In (s, (sp, re)) sm -> x <> sp) -> (forall s sp re, In (s, (sp, re)) sm -> x <> re) ->
+  smsum sm (fun s' sp' re' => (if x =? sp' then g s' sp' re' else 0) + (if x =? re' then g' s' sp' re' else 0)) = 0.
+Proof. intros H1 H2. rewrite smsum_add, smsum_no_spl, smsum_no_rem; auto. Qed.
+
+(* ---------- the relabelled blocks ---------- *)
+Definition relabel_blocks (masks : list (N * list bool)) (sm : list (N * (N * N))) (L : list N) (vx : list (N * list N)) :=
+  fold_left (fun vx b =>
+               match aget N.eqb b vx with
+               | Some arr => aset N.eqb b (relabel_split arr (match aget N.eqb b masks with Some m => m | None => [] end) sm) vx
+               | None => vx
+               end) L vx.
+
+Lemma aget_relabel_blocks masks sm : forall L vx b, NoDup L ->
+  aget N.eqb b (relabel_blocks masks sm L vx) =
+  if memN b L then match aget N.eqb b vx with Some arr => Some (relabel_split arr (mask_of masks b) sm) | None => None end
+  else aget N.eqb b vx.
+Proof.
+  induction L as [|b0 r IH]; intros vx b ND; [reflexivity|]. inversion ND as [|? ? Hn ND']; subst.
+  unfold relabel_blocks; cbn [fold_left]. fold (mask_of masks b0).
+  cbn [memN existsb]. fold (memN b r).
+  destruct (aget N.eqb b0 vx) as [arr0|] eqn:A0.
+  - fold (relabel_blocks masks sm r (aset N.eqb b0 (relabel_split arr0 (mask_of masks b0) sm) vx)).
+    rewrite (IH _ b ND'), aget_aset_N. destruct (b =? b0) eqn:E.
+    + apply N.eqb_eq in E; subst b. rewrite A0. cbn [orb].
+      destruct (memN b0 r) eqn:M; [apply memN_In in M; contradiction | reflexivity].
+    + reflexivity.
+  - fold (relabel_blocks masks sm r vx). rewrite (IH _ b ND').
+    destruct (b =? b0) eqn:E; [|reflexivity]. apply N.eqb_eq in E; subst b. rewrite A0. cbn [orb]. now destruct (memN b0 r).
+Qed.
+
+Lemma in_occ_pos arr l : In l arr -> 0 < occ arr l.
+Proof. intro H. apply in_nodupN_occ. now apply nodupN_In. Qed.
+
+(* voxels of s in block b under the block's mask *)
+Definition vcm (st : fstate) (masks : list (N * list bool)) (b s : N) : N :=
+  match aget N.eqb b (f_vox st) with Some arr => count_masked arr (mask_of masks b) s | None => 0 end.
+
+(* ---------- the guard of a body split ---------- *)
+Definition split_guard (st : fstate) (body newl : N) (masks : list (N * list bool)) (sm : list (N * (N * N))) : Prop :=
+  newl <> 0 /\ get_idx st newl = None /\
+  NoDup (map fst masks) /\ NoDup (ids sm) /\
+  (forall s sp re, In (s, (sp, re)) sm ->
+     s <> 0 /\ mapped (f_map st) s = body /\ fresh_sv st sp /\ fresh_sv st re) /\
+  (exists b s sp re, In (s, (sp, re)) sm /\ 0 < vcm st masks b s).
+
+Lemma ids_in_inv sm x : In x (ids sm) -> exists s sp re, In (s, (sp, re)) sm /\ (x = s \/ x = sp \/ x = re).
+Proof.
+  unfold ids. intro H. apply in_flat_map in H as [[s [sp re]] [Hin Hx]]. exists s, sp, re. split; [exact Hin|].
+  simpl in Hx. intuition.
+Qed.
+
+Lemma ids_distinct sm : NoDup (ids sm) -> forall s sp re s' sp' re',
+  In (s, (sp, re)) sm -> In (s', (sp', re')) sm -> s <> sp' /\ s <> re' /\ sp <> re'.
+Proof.
+  induction sm as [|[s0 [sp0 re0]] r IH]; intros ND s sp re s' sp' re' H1 H2; [destruct H1|].
+  change (ids ((s0, (sp0, re0)) :: r)) with (s0 :: sp0 :: re0 :: ids r) in ND.
+  inversion ND as [|? ? N1 ND1]; subst. inversion ND1 as [|? ? N2 ND2]; subst. inversion ND2 as [|? ? N3 ND3]; subst.
+  destruct H1 as [E1|H1], H2 as [E2|H2].
+  - inversion E1; inversion E2; subst. repeat split; intro; subst.
+    + apply N1; now left.
+    + apply N1; right; now left.
+    + apply N2; now left.
+  - inversion E1; subst. destruct (in_ids r _ _ _ H2) as (J1 & J2 & J3). repeat split; intro; subst.
+    + apply N1; now do 2 right.
+    + apply N1; now do 2 right.
+    + apply N2; now right.
+  - inversion E2; subst. destruct (in_ids r _ _ _ H1) as (J1 & J2 & J3). repeat split; intro; subst.
+    + apply N2; now right.
+    + now apply N3.
+    + now apply N3.
+  - apply (IH ND3 _ _ _ _ _ _ H1 H2).
+Qed.
+
+Theorem consistent_split st body newl masks sm st' :
+  Consistent st -> split_guard st body newl masks sm ->
+  f_split st body newl masks sm = Ok st' -> Consistent st'.
+Proof.
+  intros C (Hn0 & Hnone & NDm & NDi & Hsm & Hex). unfold f_split.
+  destruct (get_idx st body) as [idx|] eqn:Hi; [|discriminate].
+  match goal with |- (if ?c then _ else _) = _ -> _ => destruct c end; [discriminate|].
+  destruct (block_splits (f_vox st) masks sm) as [bs|] eqn:Eb; [|discriminate].
+  match goal with |- (if negb ?c then _ else _) = _ -> _ => destruct c eqn:Chk end; [|discriminate]. cbn [negb].
+  destruct (split_index idx bs sm) as [[ridx sidx]| |] eqn:Es; try discriminate.
+  intro E. apply Ok_inj in E.
+  set (affected := nodupN (map kblock (filter (fun e => ahas N.eqb (ksv e) sm) idx))) in *.
+  assert (Ev : f_vox st' = relabel_blocks masks sm affected (f_vox st)) by (rewrite <- E; reflexivity).
+  assert (Em : f_map st' = split_map body newl sm (f_map st)) by (rewrite <- E; reflexivity).
+  assert (Ei : f_idx st' = put_idx (put_idx (f_idx st) body (match ridx with [] => None | _ => Some ridx end)) newl (Some sidx))
+    by (rewrite <- E; reflexivity).
+  clear E.
+  assert (body <> 0) as Hb0 by (intro X; rewrite X, (c_zero st C) in Hi; discriminate).
+  assert (newl <> body) as Hnb by (intro X; rewrite X, Hi in Hnone; discriminate).
+  destruct (c_wf st C body idx Hi) as [W Hne].
+  assert (Ci : forall b s, cnt idx b s = if negb (s =? 0) && (mapped (f_map st) s =? body) then vcount st b s else 0)
+    by (intros; now apply consistent_cnt).
+  destruct (ids_nodup_parts sm NDi) as (NDk & NDs & NDr).
+  assert (Ck : forall s sp re, In (s, (sp, re)) sm -> forall b, cnt idx b s = vcount st b s).
+  { intros s sp re Hin b. destruct (Hsm s sp re Hin) as (H0 & Hm & _).
+    rewrite Ci, Hm, N.eqb_refl, (N_eqb_neq s 0 H0). reflexivity. }
+  assert (Fresh : forall x, fresh_sv st x -> sv_in idx x = false).
+  { intros x [_ Hx]. destruct (sv_in idx x) eqn:S; [|reflexivity].
+    destruct (sv_in_pos idx x W S) as [b Hb]. rewrite Ci, (Hx b) in Hb.
+    destruct (negb (x =? 0) && (mapped (f_map st) x =? body)); lia. }
+  destruct (block_splits_fold (f_vox st) sm masks (Some []) bs NDm Eb) as (acc0 & Ea & Hmex & Hbs).
+  inversion Ea; subst acc0. clear Ea.
+  assert (Ns : forall b s, s <> 0 -> nsplit bs b s = vcm st masks b s).
+  { intros b s Hs. unfold nsplit, vcm, mask_of. rewrite Hbs. cbn [aget].
+    destruct (aget N.eqb b masks) as [m|] eqn:Am.
+    - destruct (Hmex b m (aget_some_in _ _ _ Am)) as [arr Ar]. rewrite Ar. unfold cmz. rewrite (N_eqb_neq s 0 Hs).
+      destruct (count_masked arr m s =? 0) eqn:Z; [apply N.eqb_eq in Z; now rewrite Z | reflexivity].
+    - destruct (aget N.eqb b (f_vox st)); [now rewrite cm_nil_mask | reflexivity]. }
+  assert (BsOk : forall b s sp n, aget key_eqb (b, s) bs = Some (sp, n) -> 0 < n /\ exists re, aget N.eqb s sm = Some (sp, re)).
+  { intros b s sp n A. pose proof (aget_Some_in key_eqb key_eqb_eq _ _ _ A) as Hin.
+    rewrite forallb_forall in Chk. pose proof (Chk _ Hin) as Hc. cbn [fst snd] in Hc.
+    apply andb_true_iff in Hc as [_ Hh]. unfold ahas in Hh.
+    rewrite Hbs in A. cbn [aget] in A.
+    destruct (aget N.eqb b masks) as [m|]; [|discriminate]. destruct (aget N.eqb b (f_vox st)) as [arr|]; [|discriminate].
+    destruct (cmz arr m s =? 0) eqn:Z; [discriminate|]. inversion A; subst. apply N.eqb_neq in Z. split; [lia|].
+    unfold spl_of. destruct (aget N.eqb s sm) as [[sp re]|]; [|discriminate]. now exists re. }
+  destruct (split_index_spec sm bs NDk NDs NDr BsOk idx ridx sidx W
+              (fun s sp re Hin => Fresh re (proj2 (proj2 (proj2 (Hsm s sp re Hin))))) Es) as (Wr & Ws & Hr & Hs).
+  assert (Gv : forall b, aget N.eqb b (f_vox st') =
+                match aget N.eqb b (f_vox st) with Some arr => Some (relabel_split arr (mask_of masks b) sm) | None => None end).
+  { intro b. rewrite Ev, aget_relabel_blocks by apply nodupN_NoDup.
+    destruct (memN b affected) eqn:M; [reflexivity|].
+    destruct (aget N.eqb b (f_vox st)) as [arr|] eqn:A; [|reflexivity]. f_equal. symmetry. apply relabel_split_id.
+    intros l Hl. destruct (aget N.eqb l sm) as [[sp re]|] eqn:Al; [|reflexivity]. exfalso.
+    pose proof (aget_some_in _ _ _ Al) as Hin. pose proof (Ck l sp re Hin b) as Hc. unfold vcount in Hc. rewrite A in Hc.
+    change (countN arr l) with (occ arr l) in Hc. pose proof (in_occ_pos arr l Hl) as Hp.
+    unfold cnt in Hc. destruct (aget key_eqb (b, l) idx) as [c|] eqn:Ak; [|lia].
+    apply (aget_Some_in key_eqb key_eqb_eq) in Ak.
+    assert (memN b affected = true); [|congruence]. apply memN_In. unfold affected. apply nodupN_In.
+    apply in_map_iff. exists ((b, l), c). split; [reflexivity|]. apply filter_In. split; [exact Ak|].
+    unfold ksv, ahas; cbn [fst snd]. now rewrite Al. }
+  assert (Vn : forall b x, vcount st' b x =
+            (if ahas N.eqb x sm then 0 else vcount st b x) +
+            smsum sm (fun s sp re => (if x =? sp then vcm st masks b s else 0) +
+                                     (if x =? re then vcount st b s - vcm st masks b s else 0))).
+  { intros b x. unfold vcount, vcm. rewrite Gv. destruct (aget N.eqb b (f_vox st)) as [arr|].
+    - change (countN (relabel_split arr (mask_of masks b) sm) x) with (occ (relabel_split arr (mask_of masks b) sm) x).
+      rewrite (occ_relabel_split sm NDk). reflexivity.
+    - rewrite smsum_zero; [now destruct (ahas N.eqb x sm)|]. intros. now destruct (x =? sp), (x =? re). }
+  assert (Vle : forall b s, vcm st masks b s <= vcount st b s).
+  { intros b s. unfold vcm, vcount. destruct (aget N.eqb b (f_vox st)); [apply count_masked_le | lia]. }
+  destruct (mapped_split_map body newl sm (f_map st) NDi) as [Mi Mo]. rewrite <- Em in Mi, Mo.
+  assert (Gi : forall l, get_idx st' l = if l =? newl then Some sidx
+                                          else if l =? body then (match ridx with [] => None | _ => Some ridx end)
+                                               else get_idx st l).
+  { intro l. unfold get_idx. rewrite Ei, !aget_put_idx. reflexivity. }
+  assert (Ic : forall l b x, icnt st' l b x = if l =? newl then cnt sidx b x else if l =? body then cnt ridx b x else icnt st l b x).
+  { intros. unfold icnt. rewrite Gi. destruct (l =? newl); [reflexivity|]. destruct (l =? body); [|reflexivity]. now destruct ridx. }
+  (* the split index at a split label *)
+  assert (Ssp : forall s sp re b, In (s, (sp, re)) sm -> cnt sidx b sp = vcm st masks b s).
+  { intros s sp re b He. destruct (Hsm s sp re He) as (H0 & _). rewrite Hs. unfold spl_formula.
+    rewrite (smsum_spl sm sp s re (fun s' _ _ => if 0 <? cnt idx b s' then nsplit bs b s' else 0) NDs He).
+    rewrite (Ck s sp re He b), (Ns b s H0). pose proof (Vle b s).
+    destruct (0 <? vcount st b s) eqn:P; [reflexivity|]. apply N.ltb_ge in P. lia. }
+  split.
+  - intros l b x. rewrite Ic, Vn. pose proof (c_cnt st C l b x) as Cl.
+    destruct (in_dec N.eq_dec x (ids sm)) as [Hin|Hout].
+    + destruct (ids_in_inv sm x Hin) as (s & sp & re & He & [X|[X|X]]); subst x;
+        destruct (Hsm s sp re He) as (H0 & Hm & [Hsp0 Vsp] & [Hre0 Vre]).
+      * (* a split supervoxel: gone *)
+        destruct (Mi s sp re He) as (Ms & _ & _). rewrite Ms.
+        assert (forall s' sp' re', In (s', (sp', re')) sm -> s <> sp') as D1
+            by (intros s' sp' re' H'; apply (ids_distinct sm NDi s sp re s' sp' re' He H')).
+        assert (forall s' sp' re', In (s', (sp', re')) sm -> s <> re') as D2
+            by (intros s' sp' re' H'; apply (ids_distinct sm NDi s sp re s' sp' re' He H')).
+        assert (ahas N.eqb s sm = true) as Ah by (unfold ahas; now rewrite (aget_in_nodup _ _ _ NDk He)).
+        rewrite Ah, (smsum_no_both sm s _ _ D1 D2). rewrite Hs, Hr. unfold spl_formula, rem_formula.
+        rewrite Ah, (smsum_no_spl sm s _ D1), (smsum_no_rem sm s _ D2).
+        destruct (l =? newl); [now destruct (negb (s =? 0) && (0 =? l))|].
+        destruct (l =? body) eqn:Elb; [now destruct (negb (s =? 0) && (0 =? l))|].
+        rewrite Cl, Hm, (N.eqb_sym body l), Elb, andb_false_r. now destruct (negb (s =? 0) && (0 =? l)).
+      * (* a split label *)
+        destruct (Mi s sp re He) as (_ & Msp & _). rewrite Msp.
+        assert (forall s' sp' re', In (s', (sp', re')) sm -> sp <> re') as D2
+            by (intros s' sp' re' H'; apply (ids_distinct sm NDi s sp re s' sp' re' He H')).
+        assert (ahas N.eqb sp sm = false) as Ah.
+        { unfold ahas. destruct (aget N.eqb sp sm) as [[sp' re']|] eqn:A; [|reflexivity]. exfalso.
+          apply aget_some_in in A. destruct (ids_distinct sm NDi sp sp' re' s sp re A He) as (Q & _ & _). now apply Q. }
+        rewrite Ah, (Vsp b), smsum_add, (smsum_no_rem sm sp _ D2).
+        rewrite (smsum_spl sm sp s re (fun s' _ _ => vcm st masks b s') NDs He).
+        rewrite (N_eqb_neq sp 0 Hsp0). cbn [negb andb]. rewrite (N.eqb_sym newl l).
+        destruct (l =? newl) eqn:El; [rewrite (Ssp s sp re b He); lia|].
+        destruct (l =? body) eqn:Elb.
+        -- rewrite Hr. unfold rem_formula. rewrite Ah, (smsum_no_rem sm sp _ D2), Ci, (Vsp b). now ifs.
+        -- rewrite Cl, (Vsp b). now ifs.
+      * (* a remain label *)
+        destruct (Mi s sp re He) as (_ & _ & Mre). rewrite Mre.
+        assert (forall s' sp' re', In (s', (sp', re')) sm -> re <> sp') as D1
+            by (intros s' sp' re' H' X; subst; destruct (ids_distinct sm NDi s' sp' re' s sp sp' H' He) as (_ & _ & Q); now apply Q).
+        assert (ahas N.eqb re sm = false) as Ah.
+        { unfold ahas. destruct (aget N.eqb re sm) as [[sp' re']|] eqn:A; [|reflexivity]. exfalso.
+          apply aget_some_in in A. destruct (ids_distinct sm NDi re sp' re' s sp re A He) as (_ & Q & _). now apply Q. }
+        rewrite Ah, (Vre b), smsum_add, (smsum_no_spl sm re _ D1).
+        rewrite (smsum_rem sm re s sp (fun s' _ _ => vcount st b s' - vcm st masks b s') NDr He).
+        rewrite (N_eqb_neq re 0 Hre0). cbn [negb andb]. rewrite (N.eqb_sym body l).
+        destruct (l =? newl) eqn:El.
+        -- apply N.eqb_eq in El; subst l. rewrite (N_eqb_neq newl body Hnb).
+           rewrite Hs. unfold spl_formula. apply (smsum_no_spl sm re _ D1).
+        -- destruct (l =? body) eqn:Elb.
+           ++ rewrite Hr. unfold rem_formula. rewrite Ah, Ci, (Vre b).
+              rewrite (smsum_rem sm re s sp (fun s' _ _ => cnt idx b s' - nsplit bs b s') NDr He).
+              rewrite (Ck s sp re He b), (Ns b s H0). now ifs.
+           ++ rewrite Cl, (Vre b). now ifs.
+    + (* untouched label *)
+      assert (forall s' sp' re', In (s', (sp', re')) sm -> x <> sp') as D1
+          by (intros s' sp' re' H' X; subst; apply Hout; apply (in_ids sm s' sp' re' H')).
+      assert (forall s' sp' re', In (s', (sp', re')) sm -> x <> re') as D2
+          by (intros s' sp' re' H' X; subst; apply Hout; apply (in_ids sm s' sp' re' H')).
+      assert (ahas N.eqb x sm = false) as Ah.
+      { unfold ahas. destruct (aget N.eqb x sm) as [[sp' re']|] eqn:A; [|reflexivity]. exfalso.
+        apply aget_some_in in A. apply Hout. apply (in_ids sm x sp' re' A). }
+      rewrite (Mo x Hout), Ah, (smsum_no_both sm x _ _ D1 D2), N.add_0_r, <- Cl.
+      destruct (l =? newl) eqn:El.
+      * apply N.eqb_eq in El; subst l. rewrite Hs. unfold spl_formula, icnt. rewrite Hnone. apply (smsum_no_spl sm x _ D1).
+      * destruct (l =? body) eqn:Elb; [|reflexivity]. apply N.eqb_eq in Elb; subst l.
+        rewrite Hr. unfold rem_formula, icnt. rewrite Ah, Hi, (smsum_no_rem sm x _ D2). lia.
+  - rewrite Gi, (N_eqb_neq 0 newl), (N_eqb_neq 0 body) by congruence. apply (c_zero st C).
+  - intros l i. rewrite Gi. destruct (l =? newl).
+    + intro X; inversion X; subst i. split; [exact Ws|]. intro Hnil.
+      destruct Hex as (b & s & sp & re & He & Hp). pose proof (Ssp s sp re b He) as Q. rewrite Hnil in Q.
+      unfold cnt in Q; simpl in Q. lia.
+    + destruct (l =? body); [|apply (c_wf st C)]. destruct ridx as [|e r]; [discriminate|].
+      intro X; inversion X; subst i. split; [exact Wr | discriminate].
+Qed.
